@@ -33,7 +33,7 @@ func cmdProbe(a map[string]string) {
 	}
 	defer fx.Close()
 	op := a["op"]
-	resp, err := fx.Plan(op, "")
+	resp, err := fx.Plan(op, "", nil)
 	if err != nil {
 		fmt.Println("plan:", err)
 	} else {
